@@ -54,8 +54,10 @@ type Op struct {
 // Case is a header chain, a peer count and an adversarial schedule.
 type Case struct {
 	Origin      uint64 `json:"origin"`
-	Blocks      []int  `json:"blocks"` // transactions per block (0 = empty block, takes the no-fetch path)
-	Cache       int    `json:"cache"`  // result cache slots (0 = the package default 8192)
+	Blocks      []int  `json:"blocks"`            // transactions per block (0 = empty block, takes the no-fetch path)
+	Cache       int    `json:"cache"`             // result cache slots (0 = the package default 8192)
+	Mem         int    `json:"mem,omitempty"`     // result cache memory allowance in bytes (0 = the package default 64 MiB)
+	Payload     int    `json:"payload,omitempty"` // largest transaction payload; block i's first transaction carries Payload*((7i+3)%4)/3 bytes
 	Peers       int    `json:"peers"`
 	Ops         []Op   `json:"ops"`
 	HonestCount int    `json:"honest_count"` // reservation size of the honest peer in the fairness suffix
@@ -90,6 +92,10 @@ func genCase(t *rapid.T) Case {
 	if rapid.Bool().Draw(t, "smallcache") {
 		c.Cache = rapid.IntRange(2, 12).Draw(t, "cache")
 	}
+	// the memory allowance is scaled down together with the block sizes so that a handful
+	// of completed blocks exceed a fraction of it (64 MiB would need megabyte transactions)
+	c.Mem = rapid.SampledFrom([]int{0, 16384, 0, 4096, 65536, 2048}).Draw(t, "mem")
+	c.Payload = rapid.SampledFrom([]int{0, 600, 0, 3000, 150}).Draw(t, "payload")
 	c.Peers = rapid.SampledFrom([]int{3, 2, 4, 2, 5, 1}).Draw(t, "peers")
 	nops := rapid.SampledFrom([]int{40, 25, 60, 30, 15, 80, 8, 3, 1}).Draw(t, "nops")
 	for i := 0; i < nops; i++ {
@@ -147,18 +153,31 @@ type chain struct {
 	ptr     map[*types.Header]int // header object -> index (avoids re-hashing in the oracle)
 }
 
-func mkTx(block, j, salt int) *types.Transaction {
+func mkTx(block, j, salt int) *types.Transaction { return mkTxData(block, j, salt, 0) }
+
+func mkTxData(block, j, salt, payload int) *types.Transaction {
 	to := common.BytesToAddress([]byte{byte(j + 1), byte(block), byte(block >> 8)})
-	return types.NewTransaction(uint64(block*8+j+salt*100000), to, big.NewInt(int64(block+1)), 21000, big.NewInt(1), nil)
+	var data []byte
+	if payload > 0 {
+		data = make([]byte, payload)
+		for i := range data {
+			data[i] = byte(block + i)
+		}
+	}
+	return types.NewTransaction(uint64(block*8+j+salt*100000), to, big.NewInt(int64(block+1)), 21000, big.NewInt(1), data)
 }
 
-func buildChain(origin uint64, blocks []int) *chain {
+func buildChain(origin uint64, blocks []int, payload int) *chain {
 	c := &chain{first: origin + 1, index: map[common.Hash]int{}, ptr: map[*types.Header]int{}}
 	parent := common.BytesToHash([]byte(fmt.Sprintf("origin-%d", origin)))
 	for i, ntx := range blocks {
 		var txs []*types.Transaction
 		for j := 0; j < ntx; j++ {
-			txs = append(txs, mkTx(i, j, 0))
+			pl := 0
+			if j == 0 {
+				pl = payload * ((7*i + 3) % 4) / 3
+			}
+			txs = append(txs, mkTxData(i, j, 0, pl))
 		}
 		h := &types.Header{
 			ParentHash:  parent,
@@ -657,6 +676,12 @@ func (h *harness) results(when string) *violation {
 		allowed[i] = 1 << locO
 	}
 	h.delivered += len(rs)
+	if len(rs) >= 2 {
+		h.labels["results-batch>=2"] = true
+		if h.c.Mem > 0 {
+			h.labels["results-batch>=2,small-mem"] = true
+		}
+	}
 	return h.step(when, allowed)
 }
 
@@ -797,7 +822,8 @@ func runCase(c Case) kit.Result {
 	if len(c.Blocks) == 0 || c.Peers < 1 {
 		return kit.Discarded("empty case")
 	}
-	h := &harness{c: c, ch: buildChain(c.Origin, c.Blocks), labels: map[string]bool{}}
+	defer downloader.VerifSetBlockCacheMemory(c.Mem)()
+	h := &harness{c: c, ch: buildChain(c.Origin, c.Blocks, c.Payload), labels: map[string]bool{}}
 	n := len(c.Blocks)
 	h.q = downloader.VerifNewQueue(c.Cache)
 	h.q.Reset() // Downloader.synchronise resets the queue before every sync
@@ -1017,6 +1043,12 @@ func runCase(c Case) kit.Result {
 	for l := range h.labels {
 		ls = append(ls, l)
 	}
+	if c.Mem > 0 {
+		ls = append(ls, "small-mem")
+	}
+	if c.Payload > 0 {
+		ls = append(ls, "payloads")
+	}
 	if c.Cache > 0 {
 		ls = append(ls, "small-cache")
 		if c.Cache < n {
@@ -1121,7 +1153,7 @@ func (h *harness) badChunk(op Op) ([]*types.Header, uint64, int, bool) {
 
 var _ = kit.Register(kit.Prop[Case]{
 	Name: "QueueSchedule",
-	Rule: "header chains of 1-300 blocks (each empty or with 1-3 transactions) from origins {0,1,7,1000,2^33}, 1-5 peers, result cache of 8192 or 2-12 slots, and 1-60 generated operations: schedule next chunk / bad chunk (stale, gap, wrong start number, unknown parent, break or repeat after a good prefix), reserve(peer,count), deliver(peer, complete|extra|prefix|empty|other blocks|shifted|shuffled|one body corrupted|duplicate of earlier delivery), unsolicited delivery, cancel, expire(all / none), revoke (peer disconnects, may reconnect), results, re-sync (Reset+Prepare at the handed-out height); then a bounded fairness suffix with one honest peer. After every operation the real bookkeeping is read and checked (partition, permitted transitions, results in order with the block's own transactions); non-trivial = a cancel, expiry, revoke or incomplete/wrong delivery hit a request that was in flight; distinct = FNV-64 of the case JSON",
+	Rule: "header chains of 1-300 blocks (each empty or with 1-3 transactions) from origins {0,1,7,1000,2^33}, 1-5 peers, result cache of 8192 or 2-12 slots, result cache memory allowance (package variable blockCacheMemory, set through the shim for the duration of the case) of the default 64 MiB or scaled down to 2-64 KiB together with the block sizes (first transaction of a block carries 0-3000 bytes of payload) so that a few completed blocks exceed fractions of the allowance, and 1-60 generated operations: schedule next chunk / bad chunk (stale, gap, wrong start number, unknown parent, break or repeat after a good prefix), reserve(peer,count), deliver(peer, complete|extra|prefix|empty|other blocks|shifted|shuffled|one body corrupted|duplicate of earlier delivery), unsolicited delivery, cancel, expire(all / none), revoke (peer disconnects, may reconnect), results, re-sync (Reset+Prepare at the handed-out height); then a bounded fairness suffix with one honest peer. After every operation the real bookkeeping is read and checked (partition, permitted transitions, results in order with the block's own transactions); non-trivial = a cancel, expiry, revoke or incomplete/wrong delivery hit a request that was in flight; distinct = FNV-64 of the case JSON",
 	Gen:  genCase, Run: runCase,
-	Quick: 3000, Thorough: 30000, Chunk: 500, MinNonTrivialPct: 28,
+	Quick: 2500, Thorough: 30000, Chunk: 500, MinNonTrivialPct: 28,
 })
